@@ -330,6 +330,24 @@ class Inliner:
         return st
 
 
+class _FoldFStrings(ast.NodeTransformer):
+    """f"{left} {'in'} " -> f"{left} in ": a constant substituted into a replacement field is literal text."""
+
+    def visit_JoinedStr(self, node: ast.JoinedStr) -> ast.AST:
+        self.generic_visit(node)
+        parts: List[ast.expr] = []
+        for v in node.values:
+            if isinstance(v, ast.FormattedValue) and isinstance(v.value, ast.Constant) and isinstance(v.value.value, (str, int)) \
+                    and not isinstance(v.value.value, bool) and v.conversion == -1 and v.format_spec is None:
+                v = ast.Constant(value=str(v.value.value))
+            if isinstance(v, ast.Constant) and parts and isinstance(parts[-1], ast.Constant):
+                parts[-1] = ast.Constant(value=str(parts[-1].value) + str(v.value))
+            else:
+                parts.append(v)
+        node.values = parts
+        return node
+
+
 def set_parents(node: ast.AST) -> None:
     for n in ast.walk(node):
         for ch in ast.iter_child_nodes(n):
@@ -349,6 +367,7 @@ def normalize(mod: Module, cls: Optional[ast.ClassDef], fn: ast.FunctionDef, no_
     inl.stack.append(fn.name)
     try:
         new.body = inl.block(list(new.body), 0)
+        new = _FoldFStrings().visit(new)
         ast.fix_missing_locations(new)
     except RecursionError:
         new = clone(fn)
